@@ -1,6 +1,7 @@
 import re
 import copy
 import os
+import string
 import warnings
 import collections
 
@@ -14,15 +15,24 @@ class KeyCalc(object):
 
     def __init__(self, key_spec):
         if isinstance(key_spec, list):
-            key_list = key_spec
-            key_spec = ':'.join('{%s}' % key for key in key_spec)
+            # a list names the key fields literally
+            key_list = list(key_spec)
+            key_spec = None
         else:
-            key_list = re.findall(r'\{(.*?)\}', key_spec)
+            # the fields a format string refers to (without conversion, format spec, attribute or index)
+            key_list = [
+                re.split(r'[.\[]', name, 1)[0]
+                for _, name, _, _ in string.Formatter().parse(key_spec)
+                if name
+            ]
         self.key_spec = key_spec
         self.key_list = key_list
 
     def __call__(self, row, row_number):
-        return self.key_spec.format(**{**row, '#': row_number})
+        values = {**row, '#': row_number}
+        if self.key_spec is None:
+            return ':'.join(str(values[key]) for key in self.key_list)
+        return self.key_spec.format(**values)
 
 
 # Aggregator helpers
